@@ -19,7 +19,7 @@ func FuzzParser(f *testing.F) {
 	for _, s := range []string{
 		"\x1b[1;2:3;4:5:6m", "\x1b]8;;http://x\x1b\\a\x1b]8;;\x07", "\x1bP1$r0 q\x1b\\", "\x1b_Gi=1;AAAA\x1b\\",
 		"\x1b[200~paste\x1b[201~", "\x1bOA\x1bOP", "\x1b\x1b[A", "\x18\x1a\x1b", "\xc3\xa9\xe5\xae\xbd\xf0\x9f\x98\x80", "\xff\xfe\xc3", "\x1b[<0;1;1M\x1b[<0;1;1m",
-		"\x1b]11;rgb:0000/0000/0000\x1b\\", "\x1bX sos \x1b\\", "\x1b^ pm \x07", "\x1b[?1;2c\x1b[>1;2;3c", "\x1b[97;5u\x1b[27;2;13~",
+		"\x1b[900000000000000000000A\x1b[1;99999999999999999999999:18446744073709551616m", "\x1b]11;rgb:0000/0000/0000\x1b\\", "\x1bX sos \x1b\\", "\x1b^ pm \x07", "\x1b[?1;2c\x1b[>1;2;3c", "\x1b[97;5u\x1b[27;2;13~",
 	} {
 		f.Add([]byte(s), uint32(0))
 		f.Add([]byte(s), uint32(0x55555555))
